@@ -409,6 +409,17 @@ def run(c):
         miss = [k for k in need if not df.get(k)]
         if miss:
             c.obligation("harness-sanity:declaring-identifier-catalogue", False, "no captured identifier that %r (have %r)" % (miss, df))
+        # Object.IsVariadicParam: uses of a variadic parameter inside function literals nested in its function (1-3 deep), of a
+        # method / of a literal, names that shadow it; "the innermost function only" must be told from the reference at every depth
+        vc = family_cov.get("defs-cov", {}).get("variadic", {})
+        need = ["variadic parameter, %d function literals between use and function" % d for d in (0, 1, 2, 3)] + \
+               ["innermost-only oracle differs at depth %d" % d for d in (1, 2, 3)] + \
+               ["variadic parameter of a method", "variadic parameter of a function literal",
+                "named like a variadic parameter of a function around it, denotes another object"]
+        miss = [k for k in need if not vc.get(k)]
+        if miss:
+            c.obligation("harness-sanity:variadic-param-catalogue", False, "no captured identifier for %r (have %r)" % (miss, vc))
+        c.coverage["variadic_param_uses"] = vc
         sp = family_cov.get("subpat-cov", {})
         kinds = sp.get("root_kinds", {})
         need = ["statement run", "expression run", "expression run over captured variables", "range clause", "range header", "expression", "statement", "declaration", "type expression"]
